@@ -11,6 +11,9 @@ def check(ctx: Ctx) -> None:
     SP.r_spawner_shape(ctx, "R04.1s")
     SP.r_unreachable_lock_raise(ctx, "R04.2")
     A.r_one_spawner_per_request(ctx, "R04.3", ("apply", "start"))
+    S.r_spawner_registry_who(ctx, "R04.5")
+    from .elemtrack import r_spawner_kept
+    r_spawner_kept(ctx, "R04.6")
     A.r_validate_first(ctx, "R09.1", ("apply", "start"))
     S.r_wiring(ctx, "R04.3w", {"GROUP", "FUNC", "ARGS", "KWARGS", "NUM"}, 10, "group/func/args/kwargs/num roles")
     # no time-outs anywhere on the spawning path ("however long it has to wait")
